@@ -314,8 +314,36 @@ func (f *evVheld) Call(s *slip.Scope, args slip.List, depth int) slip.Object {
 	return slip.True
 }
 
+type evVopen struct{ slip.Function }
+
+// Call reports whether the stream argument is open.
+func (f *evVopen) Call(s *slip.Scope, args slip.List, depth int) slip.Object {
+	slip.CheckArgCount(s, depth, f, args, 1, 1)
+	st, ok := args[0].(slip.Stream)
+	if !ok {
+		slip.TypePanic(s, depth, "stream", args[0], "stream")
+	}
+	if fs, isFile := args[0].(*slip.FileStream); isFile {
+		// IsOpen of a file stream tries an empty write, which fails on a stream opened for input: ask the file itself
+		if _, err := (*os.File)(fs).Stat(); err == nil {
+			return slip.True
+		}
+		return nil
+	}
+	if st.IsOpen() {
+		return slip.True
+	}
+	return nil
+}
+
 func evDefine() {
 	evDefOnce.Do(func() {
+		slip.Define(func(args slip.List) slip.Object {
+			f := evVopen{Function: slip.Function{Name: "vopen", Args: args}}
+			f.Self = &f
+			return &f
+		}, &slip.FuncDoc{Name: "vopen", Args: []*slip.DocArg{{Name: "stream", Type: "stream"}}, Return: "boolean",
+			Text: "verification probe: is the stream open"}, &slip.UserPkg)
 		slip.Define(func(args slip.List) slip.Object {
 			f := evVtr{Function: slip.Function{Name: "vtr", Args: args}}
 			f.Self = &f
@@ -378,6 +406,8 @@ func evCanonTo(b *strings.Builder, obj slip.Object) {
 		b.WriteString("#<fn>")
 	case *gi.Mutex:
 		b.WriteString("#<mutex>")
+	case *slip.FileStream:
+		b.WriteString("#<file-stream>")
 	case *slip.ReturnResult:
 		b.WriteString("#<return-result>")
 	default:
